@@ -43,6 +43,8 @@ class ScoreLaws (S : Type) [ScoreOps S] : Prop where
   ofQ_ge_one : ∀ q : Q, (q.den : Int) ≤ q.num → 0 < q.den → lt (ofQ q : S) one = false
   /-- `a ≥ b → c - a ≤ c - b` (C01: the fuzzy score normalisation is monotone on negative library scores) -/
   sub_le_sub_left : ∀ a b c : S, lt a b = false → lt (sub c b) (sub c a) = false
+  /-- `0 ≤ b → a ≤ a + b` (Boosts: `boost += x` with `x ≥ 0` never lowers the cascading boost) -/
+  le_add_of_nonneg_right : ∀ a b : S, lt b zero = false → lt (add a b) a = false
 
 namespace ScoreLaws
 variable {S : Type} [ScoreOps S] [ScoreLaws S]
